@@ -34,7 +34,14 @@ RULE = (
     "r within 1e-12 relative of r_min is a tie band (either outcome), r==0 must be finite, outside the open disc "
     "and inside the square of half-width r_min. Non-trivial = f not radially symmetric and >=3 distinct "
     "coordinates (radial sub-check: also at least one point inside and one outside r_min); distinct = SHA-1 of "
-    "the canonical case."
+    "the canonical case. Sub-check `reuse`: ONE Grid1D / Grid2D / Grid2DIrregular object is passed through 2-4 "
+    "decorated calls in sequence (and the same calls in reversed order on a second object): each call draws its own "
+    "profile (class / radial minimum, centre, angle, frame, functions) or re-uses the previous profile object with "
+    "changed attributes, its method (project_grid series with 2-4 angles, structure decorators, composed and direct "
+    "relocation) and its target (the same object, a copy of it, an arithmetic multiple of it, or a freshly built "
+    "control); every call is decided by the single-call oracles above against the geometry of ITS profile and the "
+    "coordinates of ITS grid; failures after the first call are keyed reuse/...; non-trivial = at least two calls "
+    "share the reused object (or a grid derived from it) and every function is asymmetric."
 )
 ASSUMPTIONS = [
     "the user function is point-wise (entry k of its result depends on coordinate k only); that is what 'entry k "
@@ -482,6 +489,27 @@ def _check_line(ctx, spy, want_pts, key, scale):
     return ok
 
 
+def _check_1d(ctx, aa, out, key, m, ps, origin, want):
+    """`out` must be an Array1D on the 1D mask (m, ps, origin) holding `want` (one entry per unmasked pixel)."""
+    ok = isinstance(out, aa.Array1D)
+    ctx.check(ok, key + "/type", "expected Array1D, got %s" % type(out).__name__)
+    if not ok or not _mask_same(ctx, out, m, ps, origin, key):
+        return
+    ctx.equal(np.asarray(out.slim), want, key + "/values", "Array1D slim entries vs f((0,x_k))")
+    wn = np.zeros(m.shape)
+    wn[~m] = want
+    ctx.equal(np.asarray(out.native), wn, key + "/native", "Array1D native entries")
+
+
+def _check_1d_grid(ctx, out, key, m, want):
+    om = getattr(out, "mask", None)
+    ok = om is not None and np.array_equal(np.asarray(om).astype(bool).ravel(), m)
+    ctx.check(ok, key + "/mask", "result of to_grid on a Grid1D is not on the 1D mask")
+    if not ok:
+        return
+    ctx.equal(np.asarray(out.slim), want, key + "/values", "entries vs f((0,x_k)) pairs")
+
+
 def body_grid1d(case, ctx):
     aa = _aa()
     P = _profiles()
@@ -501,23 +529,11 @@ def body_grid1d(case, ctx):
     ps, origin = (spec["ps"],), (spec["origin"],)
 
     def check_1d(out, key, pts, fn):
-        ok = isinstance(out, aa.Array1D)
-        ctx.check(ok, key + "/type", "expected Array1D, got %s" % type(out).__name__)
-        if not ok or not _mask_same(ctx, out, m, ps, origin, key):
-            return
         # the values are f at the points the function actually received (verified to be (0,x_k) at 1e-12)
-        ctx.equal(np.asarray(out.slim), g * f_scalar(fn, pts), key + "/values", "Array1D slim entries vs f((0,x_k))")
-        wn = np.zeros(m.shape)
-        wn[~m] = g * f_scalar(fn, pts)
-        ctx.equal(np.asarray(out.native), wn, key + "/native", "Array1D native entries")
+        _check_1d(ctx, aa, out, key, m, ps, origin, g * f_scalar(fn, pts))
 
     def check_1d_grid(out, key, pts, fn):
-        om = getattr(out, "mask", None)
-        ok = om is not None and np.array_equal(np.asarray(om).astype(bool).ravel(), m)
-        ctx.check(ok, key + "/mask", "result of to_grid on a Grid1D is not on the 1D mask")
-        if not ok:
-            return
-        ctx.equal(np.asarray(out.slim), g * f_pair(fn, pts), key + "/values", "entries vs f((0,x_k)) pairs")
+        _check_1d_grid(ctx, out, key, m, g * f_pair(fn, pts))
 
     out = p.arr(grid, **kw)
     if _check_line(ctx, p.spy[-1], line, "to_array/grid1d/projected-line", scale):
@@ -580,14 +596,7 @@ def body_project(case, ctx):
     else:
         centre_val = tuple(case["centre"])
     ck, ak = case["centre_kind"], case["angle_kind"]
-    kw = {}
-    if ck != "absent":
-        kw["centre"] = centre_val if ck == "tuple" else None
-    if ak != "absent":
-        kw["angle"] = case["angle"] if ak == "value" else None
-    centre = np.asarray(centre_val if ck == "tuple" else (0.0, 0.0), dtype=float)
-    alpha = math.radians(case["angle"] + 90.0) if ak == "value" else 0.0
-    u = np.array([-math.sin(alpha), math.cos(alpha)])     # documented: +x axis rotated clockwise by alpha
+    kw, centre, u = _proj_geometry(ck, ak, centre_val, case["angle"])
     ctx.label("in:" + kind, "mode:" + case["mode"], "centre:" + ck, "angle:" + ak,
               "fn:radial" if fns[0]["radial"] else "fn:asymmetric")
     p = P["VPProfile"](fns, mode=case["mode"], **kw)
@@ -608,60 +617,85 @@ def body_project(case, ctx):
         spec = case["g1"]
         m1, grid, xs = _grid1d(aa, spec)
         out = p.proj(grid)
-        spy = p.spy[-1]
-        n = len(xs)
         ctx.nt(_nt_fn(fns, 1) and _distinct(np.stack([xs, xs], -1)) >= 3)
         ctx.label("g1:" + spec["kind"], "g1:masked" if m1.any() else "g1:unmasked")
-        ok = spy.shape == (n, 2)
-        ctx.check(ok, "project_grid/grid1d/line", "function received %s points for %d 1D coordinates" % (spy.shape, n))
-        if not ok:
-            return
-        # one line through the origin, point k at signed distance x_k
-        rad = np.hypot(spy[:, 0], spy[:, 1])
-        ctx.close(rad, np.abs(xs), "project_grid/grid1d/line", rtol=1e-12, atol=1e-12, what="|p_k| vs |x_k|")
-        nz = np.abs(xs) > 1e-6     # the common direction is only resolved for points away from the origin
-        if nz.sum() >= 2:
-            d = spy[nz] / xs[nz][:, None]           # signed unit direction, must be common to all points
-            ctx.check(bool(np.all(np.abs(d - d[0]) <= 1e-9)), "project_grid/grid1d/line",
-                      "projected points are not on one line through the origin with signed position x_k")
-        ctx.check(bool(np.all(np.abs(spy - xs[:, None] * u[None, :]) <= 1e-12 * (1.0 + np.abs(xs))[:, None])),
-                  "project_grid/grid1d/direction-documented", "points vs x_k*(-sin(angle+90), cos(angle+90))")
-        ok = isinstance(out, aa.Array1D)
-        ctx.check(ok, "project_grid/grid1d/type", "expected Array1D, got %s" % type(out).__name__)
-        if not ok:
-            return
-        ctx.equal(np.asarray(out.slim), f_scalar(fns[0], spy), "project_grid/grid1d/values",
-                  "entry k vs f(projected point k)")
-        ctx.check(tuple(float(v) for v in out.pixel_scales) == (float(spec["ps"]),), "project_grid/grid1d/pixel-scale",
-                  "result pixel scale %r vs input %r" % (out.pixel_scales, spec["ps"]))
+        _check_proj_1d(ctx, aa, out, p.spy[-1], xs, spec["ps"], u, fns[0])
         return
 
     # Grid2D: radial projection from the profile centre
-    ps = float(case["ps"][0])
     out = p.proj(grid)
-    spy = p.spy[-1]
-    npts = spy.shape[0]
+    npts = p.spy[-1].shape[0]
     ctx.nt(_nt_fn(fns, 1) and npts >= 3)
     ctx.label("proj:n=1" if npts == 1 else ("proj:n=2" if npts == 2 else "proj:n>=3"))
     for l in gens.mask_stats(m):
         ctx.label(l)
+    _check_proj_2d(ctx, aa, out, p.spy[-1], (h, w, sy, sx, oy, ox), centre, u, fns[0])
+
+
+def _proj_geometry(ck, ak, centre_val, angle):
+    """Constructor keywords for the profile and the documented ray: start point and unit direction (y,x)."""
+    kw = {}
+    if ck != "absent":
+        kw["centre"] = tuple(centre_val) if ck == "tuple" else None
+    if ak != "absent":
+        kw["angle"] = angle if ak == "value" else None
+    centre = np.asarray(centre_val if ck == "tuple" else (0.0, 0.0), dtype=float)
+    alpha = math.radians(angle + 90.0) if ak == "value" else 0.0
+    u = np.array([-math.sin(alpha), math.cos(alpha)])     # documented: +x axis rotated clockwise by alpha
+    return kw, centre, u
+
+
+def _check_proj_1d(ctx, aa, out, spy, xs, ps, u, fn, pre=""):
+    """project_grid on a Grid1D with slim coordinates xs: `spy` = points the function received."""
+    K = pre + "project_grid/grid1d"
+    n = len(xs)
+    ok = spy.shape == (n, 2)
+    ctx.check(ok, K + "/line", "function received %s points for %d 1D coordinates" % (spy.shape, n))
+    if not ok:
+        return
+    # one line through the origin, point k at signed distance x_k
+    rad = np.hypot(spy[:, 0], spy[:, 1])
+    ctx.close(rad, np.abs(xs), K + "/line", rtol=1e-12, atol=1e-12, what="|p_k| vs |x_k|")
+    nz = np.abs(xs) > 1e-6     # the common direction is only resolved for points away from the origin
+    if nz.sum() >= 2:
+        d = spy[nz] / xs[nz][:, None]           # signed unit direction, must be common to all points
+        ctx.check(bool(np.all(np.abs(d - d[0]) <= 1e-9)), K + "/line",
+                  "projected points are not on one line through the origin with signed position x_k")
+    ctx.check(bool(np.all(np.abs(spy - xs[:, None] * u[None, :]) <= 1e-12 * (1.0 + np.abs(xs))[:, None])),
+              K + "/direction-documented", lambda: "points %s vs x_k*(-sin(angle+90), cos(angle+90)) = %s" % (
+                  spy[:3].tolist(), (xs[:, None] * u[None, :])[:3].tolist()))
+    ok = isinstance(out, aa.Array1D)
+    ctx.check(ok, K + "/type", "expected Array1D, got %s" % type(out).__name__)
+    if not ok:
+        return
+    ctx.equal(np.asarray(out.slim), f_scalar(fn, spy), K + "/values", "entry k vs f(projected point k)")
+    ctx.check(tuple(float(v) for v in out.pixel_scales) == (float(ps),), K + "/pixel-scale",
+              "result pixel scale %r vs input %r" % (out.pixel_scales, ps))
+
+
+def _check_proj_2d(ctx, aa, out, spy, geom, centre, u, fn, pre=""):
+    """project_grid on a Grid2D whose mask has geometry geom=(h,w,sy,sx,oy,ox), sy==sx."""
+    K = pre + "project_grid/grid2d"
+    h, w, sy, sx, oy, ox = geom
+    ps = float(sy)
+    npts = spy.shape[0]
     ok = spy.ndim == 2 and spy.shape[1] == 2 and npts >= 1
-    ctx.check(ok, "project_grid/grid2d/ray", "function received an array of shape %s" % (spy.shape,))
+    ctx.check(ok, K + "/ray", "function received an array of shape %s" % (spy.shape,))
     if not ok:
         return
     cs = 1.0 + float(np.max(np.abs(centre)))
-    ctx.check(bool(np.all(np.abs(spy[0] - centre) <= 1e-12 * cs)), "project_grid/grid2d/ray",
+    ctx.check(bool(np.all(np.abs(spy[0] - centre) <= 1e-12 * cs)), K + "/ray",
               "first projected point %s is not the profile centre %s" % (spy[0], centre))
     rel = spy - centre[None, :]
     rad = np.hypot(rel[:, 0], rel[:, 1])
     kk = np.arange(npts, dtype=float)
-    ctx.check(bool(np.all(np.abs(rad - kk * ps) <= 1e-9 * (cs + kk * ps))), "project_grid/grid2d/ray",
+    ctx.check(bool(np.all(np.abs(rad - kk * ps) <= 1e-9 * (cs + kk * ps))), K + "/ray",
               lambda: "radii from the centre %s are not k*pixel_scale (%g)" % (rad, ps))
     if npts >= 2:
         d = rel[1:] / (kk[1:] * ps)[:, None]
-        ctx.check(bool(np.all(np.abs(d - d[0]) <= 1e-9 * cs / ps)), "project_grid/grid2d/ray",
+        ctx.check(bool(np.all(np.abs(d - d[0]) <= 1e-9 * cs / ps)), K + "/ray",
                   "projected points are not on one ray from the centre")
-        ctx.check(bool(np.all(np.abs(d - u[None, :]) <= 1e-9 * cs / ps)), "project_grid/grid2d/direction-documented",
+        ctx.check(bool(np.all(np.abs(d - u[None, :]) <= 1e-9 * cs / ps)), K + "/direction-documented",
                   lambda: "ray direction %s vs documented %s" % (d[0], u))
     # documented number of points: longest distance from the centre to an extent edge
     ymax, ymin = oy + h * sy / 2.0, oy - h * sy / 2.0
@@ -671,17 +705,15 @@ def body_project(case, ctx):
     if abs(q - round(q)) < 1e-6:
         ctx.tie()
     else:
-        ctx.check(npts == int(q) + 1, "project_grid/grid2d/count-documented",
+        ctx.check(npts == int(q) + 1, K + "/count-documented",
                   "%d projected points, documented int(%r/%r)+1 = %d" % (npts, dist, ps, int(q) + 1))
     ok = isinstance(out, aa.Array1D)
-    ctx.check(ok, "project_grid/grid2d/type", "expected Array1D, got %s" % type(out).__name__)
+    ctx.check(ok, K + "/type", "expected Array1D, got %s" % type(out).__name__)
     if not ok:
         return
-    ctx.equal(np.asarray(out.slim), f_scalar(fns[0], spy), "project_grid/grid2d/values",
-              "entry k vs f(projected point k)")
-    ctx.equal(np.asarray(out.native), f_scalar(fns[0], spy), "project_grid/grid2d/values",
-              "native entry k vs f(projected point k)")
-    ctx.check(tuple(float(v) for v in out.pixel_scales) == (ps,), "project_grid/grid2d/pixel-scale",
+    ctx.equal(np.asarray(out.slim), f_scalar(fn, spy), K + "/values", "entry k vs f(projected point k)")
+    ctx.equal(np.asarray(out.native), f_scalar(fn, spy), K + "/values", "native entry k vs f(projected point k)")
+    ctx.check(tuple(float(v) for v in out.pixel_scales) == (ps,), K + "/pixel-scale",
               "result pixel scale %r vs %r" % (out.pixel_scales, ps))
 
 
@@ -775,6 +807,52 @@ def _frame(coords, centre, angle, sph):
     return np.stack([d[:, 0] * ca - d[:, 1] * sa, d[:, 1] * ca + d[:, 0] * sa], axis=-1)
 
 
+def _check_direct(ctx, aa, p, out, q0, r_min, g2d, irregular, pre=""):
+    """`p.direct(grid)` was just called once on frame coordinates q0; g2d=(m, ps, origin) for a Grid2D input."""
+    K = pre + "relocate/direct"
+    ok = len(p.frame) == 1 and len(p.spy) == 1
+    ctx.check(ok, K + "/calls", "radial_grid_from / function not called exactly once")
+    if not ok:
+        return
+    ctx.equal(p.frame[-1], q0, K + "/radial-grid-input", "grid handed to radial_grid_from vs input")
+    _check_reloc(ctx, q0, p.spy[-1], r_min, K)
+    # the function returned the grid it received; the (un-decorated) result is that grid
+    ctx.equal(_snap(out), p.spy[-1], K + "/result", "returned grid vs grid received by the function")
+    if g2d is not None:
+        ctx.check(isinstance(out, aa.Grid2D) and _mask_same(ctx, out, g2d[0], g2d[1], g2d[2], K),
+                  K + "/type", "moved grid is not a Grid2D on the input mask: %s" % type(out).__name__)
+    elif irregular:
+        ctx.check(isinstance(out, aa.Grid2DIrregular), K + "/type",
+                  "moved grid is not a Grid2DIrregular: %s" % type(out).__name__)
+
+
+def _check_composed(ctx, aa, p, meth, out, coords, centre, angle, sph, r_min, fn, g2d, pre=""):
+    """`getattr(p, meth)(grid)` (to_array / to_vector_yx o transform o relocate) was just called once on a grid
+    with coordinates `coords`; g2d=(m, ps, origin) for a Grid2D input, None for a Grid2DIrregular."""
+    ok = len(p.frame) == 1 and len(p.spy) == 1
+    ctx.check(ok, pre + "composed/%s/calls" % meth, "radial_grid_from / function not called exactly once")
+    if not ok:
+        return
+    tol = 1e-12 * (1.0 + float(np.max(np.abs(coords))) + max(abs(centre[0]), abs(centre[1])))
+    q_or = _frame(coords, centre, angle, sph)
+    q_spy, s_spy = p.frame[-1], p.spy[-1]
+    ok = q_spy.shape == q_or.shape and bool(np.all(np.abs(q_spy - q_or) <= tol))
+    ctx.check(ok, pre + ("transform/frame-sph" if sph else "transform/frame-rotated"),
+              lambda: "coordinates entering the relocation are not the profile-frame coordinates: "
+              "got %s want %s" % (q_spy[:4], q_or[:4]))
+    if not ok:
+        return
+    if not _check_reloc(ctx, q_spy, s_spy, r_min, pre + "relocate/composed"):
+        return
+    want = f_scalar(fn, s_spy) if meth == "image" else f_pair(fn, s_spy)
+    if g2d is not None:
+        _check_2d(ctx, out, aa.Array2D if meth == "image" else aa.VectorYX2D, pre + "composed/%s/grid2d" % meth,
+                  g2d[0], g2d[1], g2d[2], want, coords=coords if meth == "deflections" else None)
+    else:
+        _check_irr(ctx, out, aa.ArrayIrregular if meth == "image" else aa.VectorYX2DIrregular,
+                   pre + "composed/%s/irregular" % meth, want, coords=coords if meth == "deflections" else None)
+
+
 def body_radial(case, ctx):
     from autoconf import conf
     rm = conf.instance["grids"]["radial_minimum"]["radial_minimum"]
@@ -846,48 +924,18 @@ def _radial(case, ctx, r_min):
     # (a) the relocation decorator alone, in the profile frame (the decorator's own contract)
     p = profile()
     out = p.direct(make(q0))
-    ok = len(p.frame) == 1 and len(p.spy) == 1
-    ctx.check(ok, "relocate/direct/calls", "radial_grid_from / function not called exactly once")
-    if ok:
-        ctx.equal(p.frame[-1], q0, "relocate/direct/radial-grid-input", "grid handed to radial_grid_from vs input")
-        _check_reloc(ctx, q0, p.spy[-1], r_min, "relocate/direct")
-        # the function returned the grid it received; the (un-decorated) result is that grid
-        ctx.equal(_snap(out), p.spy[-1], "relocate/direct/result", "returned grid vs grid received by the function")
-        if kind.startswith("grid2d"):
-            ctx.check(isinstance(out, aa.Grid2D) and _mask_same(ctx, out, m, case["ps"], case["origin"], "relocate/direct"),
-                      "relocate/direct/type", "moved grid is not a Grid2D on the input mask: %s" % type(out).__name__)
-        elif kind == "irregular":
-            ctx.check(isinstance(out, aa.Grid2DIrregular), "relocate/direct/type",
-                      "moved grid is not a Grid2DIrregular: %s" % type(out).__name__)
+    _check_direct(ctx, aa, p, out, q0, r_min, (m, case["ps"], case["origin"]) if kind.startswith("grid2d") else None,
+                  kind == "irregular")
     if kind == "ndarray":
         return
 
     # (b) downstream composition: to_array o transform o relocate  and  to_vector_yx o transform o relocate
-    tol = 1e-12 * (1.0 + float(np.max(np.abs(coords))) + max(abs(centre[0]), abs(centre[1])))
-    fkey = "transform/frame-sph" if sph else "transform/frame-rotated"
     for meth in ("image", "deflections"):
         p = profile()
         grid_in = make(coords)
         out = getattr(p, meth)(grid_in)
-        ok = len(p.frame) == 1 and len(p.spy) == 1
-        ctx.check(ok, "composed/%s/calls" % meth, "radial_grid_from / function not called exactly once")
-        if not ok:
-            continue
-        q_spy, s_spy = p.frame[-1], p.spy[-1]
-        ok = q_spy.shape == q_or.shape and bool(np.all(np.abs(q_spy - q_or) <= tol))
-        ctx.check(ok, fkey, lambda: "coordinates entering the relocation are not the profile-frame coordinates: "
-                  "got %s want %s" % (q_spy[:4], q_or[:4]))
-        if not ok:
-            continue
-        if not _check_reloc(ctx, q_spy, s_spy, r_min, "relocate/composed"):
-            continue
-        want = f_scalar(fns[0], s_spy) if meth == "image" else f_pair(fns[0], s_spy)
-        if kind.startswith("grid2d"):
-            _check_2d(ctx, out, aa.Array2D if meth == "image" else aa.VectorYX2D, "composed/%s/grid2d" % meth,
-                      m, case["ps"], case["origin"], want, coords=coords if meth == "deflections" else None)
-        else:
-            _check_irr(ctx, out, aa.ArrayIrregular if meth == "image" else aa.VectorYX2DIrregular,
-                       "composed/%s/irregular" % meth, want, coords=coords if meth == "deflections" else None)
+        _check_composed(ctx, aa, p, meth, out, coords, centre, angle, sph, r_min, fns[0],
+                        (m, case["ps"], case["origin"]) if kind.startswith("grid2d") else None)
 
     # (c) a grid flagged as already transformed reaches the relocation as it is
     p = profile()
@@ -904,6 +952,238 @@ def _radial(case, ctx, r_min):
                 _check_irr(ctx, out, aa.ArrayIrregular, "composed/image-is_transformed/irregular", want)
 
 
+# ---------------------------------------------------------------------------------------------
+# sub-check 6: ONE grid object (and grids derived from it) reused across profiles and calls
+# ---------------------------------------------------------------------------------------------
+REUSE_METHODS = {
+    "grid1d": ["proj", "proj", "proj", "arr", "grd", "arr_list"],
+    "grid2d": ["proj", "proj", "arr", "grd", "vec", "vec", "arr_list", "image", "deflections", "direct"],
+    "irregular": ["proj", "proj_pairs", "proj_pairs", "arr", "grd", "vec", "vec", "arr_list", "image", "direct"],
+}
+RADIAL_METHODS = ("image", "deflections", "direct")
+FRACS = st.one_of(st.sampled_from([0.0, 0.5, -0.5, 0.25]), st.floats(-1.0, 1.0))
+
+
+@st.composite
+def reuse_call(draw, kind, series):
+    ck = draw(st.sampled_from(["at", "at", "at", "frac", "zero"] if series == "radial" else ["at", "frac", "frac", "zero"]))
+    centre = {"kind": ck}
+    if ck == "at":
+        centre.update({"index": draw(st.integers(0, 63)),
+                       "rho": draw(st.sampled_from([0.0, 0.3, 0.9, 1.5, 3.0])), "phi32": draw(st.integers(0, 63))})
+    elif ck == "frac":
+        centre["frac"] = [_quant(draw(FRACS)), _quant(draw(FRACS))]
+    return {
+        "target": draw(st.sampled_from(["same", "same", "same", "copy", "scaled"] if series != "none" else
+                                       ["same", "same", "same", "copy", "scaled", "fresh"])),
+        "scale": draw(st.sampled_from([2.0, 0.5, -1.0, 4.0])),
+        "profile": draw(st.sampled_from(["new", "new", "prev"])),
+        "cls": draw(st.sampled_from(["VPProfile", "VPProfileSmall", "VPProfileDyn"])),
+        "method": "proj" if series == "proj" else draw(st.sampled_from(
+            ["image", "image", "deflections", "direct"] if series == "radial" else REUSE_METHODS[kind])),
+        "centre_kind": draw(st.sampled_from(["tuple", "tuple", "tuple", "none", "absent"])),
+        "angle_kind": draw(st.sampled_from(["value", "value", "value", "value", "none", "absent"])),
+        "angle": draw(ANGLES), "centre": centre, "sph": draw(st.booleans()), "radial_dec": draw(st.booleans()),
+        "fns": draw(st.lists(fn_specs(), min_size=2, max_size=2)), "nlist": draw(st.integers(1, 2)),
+        "mode": draw(st.sampled_from(MODES)),
+    }
+
+
+@st.composite
+def reuse_cases(draw):
+    kind = draw(st.sampled_from(["grid1d", "grid1d", "grid2d", "grid2d", "irregular"]))
+    # "proj": every call is project_grid on the reused object; "radial": every call relocates to a radial minimum
+    series = draw(st.sampled_from({"grid1d": ["proj", "none"], "grid2d": ["proj", "radial", "none"],
+                                   "irregular": ["radial", "none"]}[kind]))
+    qc = coordinates(-6.0, 6.0).map(_quant)
+    case = {"kind": kind, "series": series,
+            "r_dyn": draw(st.one_of(st.sampled_from([0.01, 0.1, 0.3, 1.0, 2.5]), st.floats(1e-6, 3.0)))}
+    if kind == "grid1d":
+        case["g1"] = draw(grid1d_specs())
+    elif kind == "grid2d":
+        mask = draw(gens.masks(lo=1, hi=6))
+        h, w = len(mask), len(mask[0])
+        gk = draw(st.sampled_from(["from_mask", "from_mask", "values"]))
+        case.update({"mask": mask, "ps": draw(st.one_of(st.sampled_from([[0.1, 0.1], [0.5, 0.5], [1.0, 1.0]]),
+                                                        gens.pixel_scales(iso=True))),
+                     "origin": [_quant(v) for v in draw(gens.origins(mag=5.0))], "grid_kind": gk,
+                     "values": draw(st.lists(qc, min_size=2 * h * w, max_size=2 * h * w)) if gk == "values" else []})
+    else:
+        case["points"] = draw(irregular_points(1, 12, elem=qc))
+    case["calls"] = draw(st.lists(reuse_call(kind, series), min_size=2, max_size=4))
+    return case
+
+
+def _set_geometry(p, kw):
+    for name in ("centre", "angle"):
+        if name in kw:
+            setattr(p, name, kw[name])
+        elif name in p.__dict__:
+            delattr(p, name)
+
+
+def _reuse_sequence(case, calls, ctx, order):
+    aa = _aa()
+    P = _profiles()
+    kind = case["kind"]
+    g2d = geom = m1 = None
+    if kind == "grid1d":
+        m1 = np.asarray(case["g1"]["mask"], dtype=bool)
+        ps1, origin1 = (case["g1"]["ps"],), (case["g1"]["origin"],)
+    elif kind == "grid2d":
+        m = np.asarray(case["mask"], dtype=bool)
+        g2d = (m, case["ps"], case["origin"])
+        geom = (m.shape[0], m.shape[1], case["ps"][0], case["ps"][1], case["origin"][0], case["origin"][1])
+
+    def build():
+        if kind == "grid1d":
+            return _grid1d(aa, case["g1"])[1]
+        if kind == "grid2d":
+            return _grid2d(aa, case)[2]
+        return aa.Grid2DIrregular(values=np.asarray(case["points"], dtype=float).reshape(-1, 2))
+
+    G = build()                       # THE reused object
+    prev = prev_cls = None
+    shared = 0
+    for i, call in enumerate(calls):
+        pre = "" if i == 0 else "reuse/"
+        t = call["target"]
+        if t == "same":
+            grid = G
+        elif t == "copy":
+            grid = G.copy()
+        elif t == "scaled":
+            grid = G * call["scale"]
+        else:
+            grid = build()
+        shared += t != "fresh"
+        # the coordinates of the grid handed to this call (snapshot before the call)
+        coords = _snap(grid.slim) if kind == "grid1d" else _snap(grid)
+        n = len(coords)
+        meth = call["method"]
+        fns = call["fns"]
+        cls = call["cls"]
+        reuse_prev = call["profile"] == "prev" and prev is not None
+        if reuse_prev:
+            cls = prev_cls
+        r_min = R_MIN.get(cls, float(case["r_dyn"]))
+        # geometry of THIS call's profile
+        cs = call["centre"]
+        pts2 = np.stack([np.zeros_like(coords), coords], axis=-1) if kind == "grid1d" else coords
+        if cs["kind"] == "zero":
+            cval = (0.0, 0.0)
+        elif cs["kind"] == "frac":
+            if kind == "grid2d":
+                cval = (geom[4] + cs["frac"][0] * geom[0] * geom[2], geom[5] + cs["frac"][1] * geom[1] * geom[3])
+            else:
+                cval = (5.0 * cs["frac"][0], 5.0 * cs["frac"][1])
+        else:
+            phi = cs["phi32"] * math.pi / 32.0
+            base = pts2[cs["index"] % n]
+            cval = (float(base[0] - cs["rho"] * r_min * math.sin(phi)), float(base[1] - cs["rho"] * r_min * math.cos(phi)))
+        cval = (float(cval[0]), float(cval[1]))
+        ck, ak = call["centre_kind"], call["angle_kind"]
+        if meth in RADIAL_METHODS:
+            ck, ak = "tuple", "value"            # transform needs a centre and an angle
+        kw, centre, u = _proj_geometry(ck, ak, cval, call["angle"])
+        if reuse_prev:
+            p = prev                             # the same profile object with changed attributes in between
+            p.fns, p.mode, p.nlist, p.sph, p.radial_dec = fns, call["mode"], call["nlist"], call["sph"], call["radial_dec"]
+            _set_geometry(p, kw)
+        else:
+            p = P[cls](fns, mode=call["mode"], nlist=call["nlist"], sph=call["sph"], radial_dec=call["radial_dec"], **kw)
+        prev, prev_cls = p, cls
+        del p.spy[:], p.frame[:], p.raw[:]
+        ctx.label("order:" + order, "in:" + kind, "target:" + t, "method:" + meth,
+                  "profile:prev-mutated" if reuse_prev else "profile:new", "call:%d" % i)
+
+        if meth in RADIAL_METHODS:
+            q0 = coords if meth == "direct" else _frame(coords, cval, call["angle"], call["sph"])
+            r0 = np.hypot(q0[:, 0], q0[:, 1])
+            if ((r0 > 0) & (r0 < DEGENERATE)).any():
+                ctx.tie()
+                continue
+            out = getattr(p, meth)(grid)
+            if meth == "direct":
+                _check_direct(ctx, aa, p, out, coords, r_min, g2d, kind == "irregular", pre)
+            else:
+                _check_composed(ctx, aa, p, meth, out, coords, cval, call["angle"], call["sph"], r_min, fns[0], g2d, pre)
+            continue
+
+        out = getattr(p, meth)(grid)
+        ok = len(p.spy) == 1
+        ctx.check(ok, pre + "decorated/calls", "user function called %d times for one decorated call" % len(p.spy))
+        if not ok:
+            continue
+        spy = p.spy[-1]
+        if meth in ("proj", "proj_pairs"):
+            if kind == "grid1d":
+                _check_proj_1d(ctx, aa, out, spy, coords, case["g1"]["ps"], u, fns[0], pre)
+            elif kind == "grid2d":
+                _check_proj_2d(ctx, aa, out, spy, geom, centre, u, fns[0], pre)
+            else:
+                ctx.equal(spy, coords, pre + "project_grid/irregular/received", "grid received vs input grid")
+                if meth == "proj":
+                    _check_irr(ctx, out, aa.ArrayIrregular, pre + "project_grid/irregular", f_scalar(fns[0], coords))
+                else:
+                    _check_irr(ctx, out, aa.Grid2DIrregular, pre + "project_grid/irregular-pairs", f_pair(fns[0], coords))
+            continue
+
+        # structure decorators
+        dname = {"arr": "to_array", "arr_list": "to_array", "grd": "to_grid", "vec": "to_vector_yx"}[meth]
+        pairs = meth in ("grd", "vec")
+        f = f_pair if pairs else f_scalar
+        if kind == "grid1d":
+            line = np.stack([np.zeros_like(coords), coords], axis=-1)
+            scale = float(np.max(np.abs(coords))) if n else 0.0
+            if not _check_line(ctx, spy, line, pre + dname + "/grid1d/projected-line", scale):
+                continue
+            if meth == "arr":
+                _check_1d(ctx, aa, out, pre + "to_array/grid1d", m1, ps1, origin1, f_scalar(fns[0], spy))
+            elif meth == "grd":
+                _check_1d_grid(ctx, out, pre + "to_grid/grid1d", m1, f_pair(fns[0], spy))
+            elif _check_list(ctx, out, call["nlist"], pre + "to_array/grid1d-list"):
+                for j in range(call["nlist"]):
+                    _check_1d(ctx, aa, out[j], pre + "to_array/grid1d-list", m1, ps1, origin1, f_scalar(fns[j], spy))
+            continue
+        gt = "grid2d" if kind == "grid2d" else "irregular"
+        ctx.equal(spy, coords, pre + "decorated/%s/received" % gt, "grid received by the user function vs input grid")
+        wants = [f(fns[j], coords) for j in range(call["nlist"])] if meth == "arr_list" else [f(fns[0], coords)]
+        outs = out if meth == "arr_list" else [out]
+        key = pre + dname + "/" + gt + ("-list" if meth == "arr_list" else "")
+        if meth == "arr_list" and not _check_list(ctx, out, call["nlist"], key):
+            continue
+        for o, wnt in zip(outs, wants):
+            if kind == "grid2d":
+                c2 = {"arr": aa.Array2D, "arr_list": aa.Array2D, "grd": aa.Grid2D, "vec": aa.VectorYX2D}[meth]
+                _check_2d(ctx, o, c2, key, g2d[0], g2d[1], g2d[2], wnt, coords=coords if meth == "vec" else None)
+            else:
+                c2 = {"arr": aa.ArrayIrregular, "arr_list": aa.ArrayIrregular, "grd": aa.Grid2DIrregular,
+                      "vec": aa.VectorYX2DIrregular}[meth]
+                _check_irr(ctx, o, c2, key, wnt, coords=coords if meth == "vec" else None)
+    return shared
+
+
+def body_reuse(case, ctx):
+    from autoconf import conf
+    rm = conf.instance["grids"]["radial_minimum"]["radial_minimum"]
+    old = rm["VPProfileDyn"]
+    rm["VPProfileDyn"] = float(case["r_dyn"])
+    calls = case["calls"]
+    try:
+        shared = _reuse_sequence(case, calls, ctx, "forward")
+        _reuse_sequence(case, calls[::-1], ctx, "reversed")
+    finally:
+        rm["VPProfileDyn"] = old
+    proj = [c for c in calls if c["method"] in ("proj", "proj_pairs") and c["target"] != "fresh"]
+    if len({(c["angle_kind"], c["angle"]) for c in proj}) >= 2:
+        ctx.label("reuse:proj-angles>=2")
+    if len({c["cls"] for c in calls if c["method"] in RADIAL_METHODS}) >= 2:
+        ctx.label("reuse:radial-classes>=2")
+    ctx.label("reuse:series-" + case["series"])
+    ctx.nt(shared >= 2 and all(_nt_fn(c["fns"], 1) for c in calls))
+
+
 SUBCHECKS = [
     SubCheck("uniform", body_uniform, strategy=uniform_cases(), examples={"quick": 300, "thorough": 6000},
              shards={"quick": 3, "thorough": 6}),
@@ -914,5 +1194,7 @@ SUBCHECKS = [
     SubCheck("project", body_project, strategy=project_cases(), examples={"quick": 600, "thorough": 6000},
              shards={"quick": 2, "thorough": 2}),
     SubCheck("radial", body_radial, strategy=radial_cases(), examples={"quick": 1200, "thorough": 10000},
+             shards={"quick": 4, "thorough": 4}),
+    SubCheck("reuse", body_reuse, strategy=reuse_cases(), examples={"quick": 600, "thorough": 8000},
              shards={"quick": 4, "thorough": 4}),
 ]
